@@ -15,7 +15,7 @@ ASSUME = [
     "bases: the n=2 universe of C07 (all allocations incl. teams, all edge sets, all priority vectors over {500,700}, leave, daily limit) plus its project-ALAP variants; thorough adds the n=3 slice",
     "intruder: priority 1, effort {1/2, 1, 3} slots, on r1 or r2, declared first / between / last, free or pinned to day 2 10:00; plus special intruders (depending on a base task, task-level ALAP without deadline, milestone, 40 h effort) on one- and two-scenario variants of the unconstrained bases; all scenarios are compared",
     "precondition (checked, else skipped and counted): the project end is not extended in either run",
-    "'wide9' family: bases = the two ten-task projects of mc/props/wide.py with every single toggle, alone and with reversed declaration order (thorough: every subset of <= 2 of the 34 toggles); intruder = priority 1, 30 min or 10 h, on each of r1-r4, declared first, in the middle or last; pairs where a task is unscheduled or ends after the declared 8-week window in either run are skipped and counted",
+    "'wide9' family: bases = the two ten-task projects of mc/props/wide.py with every single toggle, alone and with reversed declaration order (thorough: every subset of <= 2 of the 36 toggles); intruder = priority 1, 30 min or 10 h, on each of r1-r4, declared first, in the middle or last; pairs where a task is unscheduled or ends after the declared 8-week window in either run are skipped and counted",
     "'alapext' family (open finding D55): backward-anchored work + a 40 / 60 h lowest-priority task that fits the declared window but triggers the scheduler's window extension; no precondition is applied there",
     "in backward (ALAP) projects intruders that depend on a base task are not generated: there the added task is a successor whose start is its predecessor's deadline, which C04 requires to be honoured",
 ]
@@ -144,6 +144,9 @@ def evaluate(item):
     base, withi = specs(item)
     o1 = common.run_spec(base)
     o2 = common.run_spec(withi)
+    dup = item.get("kind") == "wide9" and item["in"].get("dup")
+    if dup and o2.get("error") and o2["error"][0] == "parse" and not o1.get("error"):
+        return common.errored(item, o2, skip=True)   # a tree may refuse a repeated task id; judged only where it is accepted
     if o1.get("error") or o2.get("error"):
         return common.errored(item, o1 if o1.get("error") else o2)
     r = common.base_result(item, o2)
@@ -169,8 +172,8 @@ def evaluate(item):
     v = []
     t2 = {t["id"]: t for t in o2["tasks"]}
     moved = False
-    for t in o1["tasks"]:
-        u = t2[t["id"]]
+    for pos, t in enumerate(o1["tasks"]):
+        u = t2[t["id"]] if not dup else o2["tasks"][pos]   # (a repeated id: the added task is declared last, the others keep their positions)
         for sc in range(o1["nsc"]):
             a = (t["sched"][sc], t["start"][sc], t["end"][sc])
             b = (u["sched"][sc], u["start"][sc], u["end"][sc])
